@@ -34,6 +34,10 @@ structure HttpRequest where
     them with exact fixed-point numbers -/
 abbrev GoFloat := Int
 
+/-- a value the translated functions only copy, test for nil or hand to an uninterpreted function (a function
+    of another signature, an `interface{}`, a map, a pointer to a struct that is not generated): `Option Opaque` -/
+abbrev Opaque := Nat
+
 /-- an `EntityReaderWriter` (an interface value the package only passes on): identified by a number -/
 abbrev GoAccessor := Nat
 
